@@ -652,6 +652,7 @@ def run(tier):
     from .. import lints as _l
     _l.tail_copy_from_running_pointer(chk, ('src/symcipher/', 'src/hash/'))
     _l.limb_split_consistent(chk, ['src/symcipher/'])
+    _l.word_codec_maps(chk, ['src/symcipher/', 'src/hash/ghash'], floor=10)
     from .. import siblings as _sib
     _sib.check_group(chk, 'aes_big/aes_small', floor=8)
     return chk.finish()
